@@ -138,7 +138,13 @@ class GroupScenario:
     def probe(self, sub, kind, data):
         i = self.sub_index.get(id(sub))
         if i is not None:
-            self.rec(kind, i, data)
+            if kind == "adopt":
+                # ground truth at the instant of adoption: what the group has committed so far
+                g = self.cluster.groups.get("g")
+                truth = {tp: off for tp, (off, _) in g.offsets.items()} if g else {}
+                self.rec(kind, i, data, tuple(sorted(truth.items())))
+            else:
+                self.rec(kind, i, data)
 
     # ---------------------------------------------------------------------------------------------------------
     def setup(self, world):
@@ -391,6 +397,14 @@ class GroupScenario:
                     cl.preload(tname, part.index, [raw])
                     cl._wake_fetchers(part)
 
+    async def isolator(self, member, t0, t1):
+        await asyncio.sleep(max(0.0, t0 - self.world.now()))
+        self.rec("isolated", member)
+        self.cluster.isolate(f"c{member}", True)
+        await asyncio.sleep(max(0.0, t1 - self.world.now()))
+        self.cluster.isolate(f"c{member}", False)
+        self.rec("healed", member)
+
     async def env(self):
         """Metadata changes scheduled by the environment."""
         p = self.p
@@ -399,6 +413,10 @@ class GroupScenario:
             evs.append(tuple(p["new_topic_at"]) + ("new",))
         if p.get("grow_at"):
             evs.append(tuple(p["grow_at"]) + ("grow",))
+        if p.get("isolate"):
+            # a network partition cuts one live member off long enough to be evicted (session timeout), then heals
+            member, t0, t1 = p["isolate"]
+            self.world.spawn("h", self.isolator, member, t0, t1)
         if p.get("mode_at"):
             at, mode = p["mode_at"]
             await asyncio.sleep(max(0.0, at - self.world.now()))
